@@ -49,6 +49,8 @@ def cases(tier='quick'):
         mk('FCC diag(1,2,3) nn + vacancy at 0', fcc, np.diag([1, 2, 3]), 0.8, 2, vacancy=0, jumps=0.8),
         mk('FCC diag(1,2,3) nn order 3', fcc, np.diag([1, 2, 3]), 0.8, 3),
         mk('low-symmetry 2 sublattices 2x2x1, vacancy on sublattice 0', low2, np.array([[1, 1, 0], [0, 2, 0], [0, 0, 1]]), 0.95, 2, spectator=(1,), vacancy=0, jumps=1.12),
+        # no vacancy: the jumping species hops between two INEQUIVALENT sites whose one-site clusters carry different energies
+        mk('low-symmetry 2 sublattices 2x2x1, no vacancy, jumps between inequivalent sites', low2, np.array([[1, 1, 0], [0, 2, 0], [0, 0, 1]]), 0.95, 2, spectator=(1,), jumps=1.12),
         mk('low-symmetry 2 sublattices 2x2x1, vacancy on sublattice 1', low2, np.array([[1, 1, 0], [0, 2, 0], [0, 0, 1]]), 0.95, 2, spectator=(1,), vacancy=1, jumps=1.12),
     ]
     if tier == 'thorough':
